@@ -249,6 +249,11 @@ class Harness:
         self.symbols[name] = v
         return v
 
+    def cover_hint(self, expr) -> None:
+        """A candidate witness for the reachability covers of this harness (used only there: a cover is also tried
+        with the hints conjoined, which can only make it harder to satisfy - sound for 'satisfiable' verdicts)."""
+        self.I.path.cover_hints.append(expr)
+
     def int(self, name): return self._reg(name, z3.Int(name))
     def bool(self, name): return self._reg(name, z3.Bool(name))
     def real(self, name): return self._reg(name, z3.Real(name))
@@ -497,6 +502,16 @@ def run_paths(registry: Registry, c: Contract, label: str, setup: Callable, max_
             pass
         except Unsupported as u:
             unsupported.append(str(u))
+        except PyRaise as pr:
+            # an exception of the modelled program outside the steps that account for exceptions (typically a harness
+            # that no longer fits the code, e.g. a changed signature): undecided, not a checker crash
+            unsupported.append(f'{pr.exc.typ}{getattr(pr.exc, "args", ())!r} raised outside the steps under contract '
+                               f'(line {getattr(pr.exc, "lineno", 0)})')
+        except (TypeError, AttributeError, KeyError, IndexError, ValueError) as e:
+            # a sidecar model or the interpreter itself does not fit the (changed) code: undecided, with the reason
+            import traceback
+            where = traceback.extract_tb(e.__traceback__)[-1]
+            unsupported.append(f'harness/model error {type(e).__name__}: {e} ({os.path.basename(where.filename)}:{where.lineno})')
         finally:
             registry.active = None
         for ob in path.obligations:
